@@ -168,7 +168,7 @@ pub fn run(ctx: &Ctx) -> Report {
 /// combined, converted by value / by reference, cloned, sources dropped before use) and the
 /// clone of every other Clone type must compute the reference function for the key.
 pub fn run_convert(ctx: &Ctx) -> Report {
-    run_selected(ctx, "convert", |e| e.family == "aes" || e.family == "kuznyechik" || e.route == "clone" || e.route == "clone_from", false)
+    run_selected(ctx, "convert", |e| e.family == "aes" || e.family == "kuznyechik" || e.route == "clone" || (e.route == "clone_from" || e.route == "clone_from_near"), false)
 }
 
 fn run_selected(ctx: &Ctx, name: &str, select: fn(&Entry) -> bool, extras: bool) -> Report {
